@@ -76,6 +76,16 @@ func checkC09(P *core.Program, R *core.Report) {
 	checkModifiedPersistedX(P, R, modPersistSpec{Rule: "C09-mtp-persisted", TypePkg: "x/perpetual/types", TypeName: "MTP",
 		Store: "x/perpetual/keeper.Keeper.SetMTP", Alt: []string{"x/perpetual/keeper.Keeper.DestroyMTP"}, Subjects: subjects, Scratch: map[string]string{"x/perpetual/keeper.Keeper.fillMTPData": "query decoration on a copy, never stored", "x/perpetual/keeper.Keeper.HandleOpenEstimation": "estimation on a hypothetical position"}})
 	checkMTPCounter(P, R, subjects)
+	checkRecordFreshness(P, R, freshSpec{
+		Rule: "C09-mtp-fresh", Load: "x/perpetual/keeper.Keeper.GetMTP", Store: "x/perpetual/keeper.Keeper.SetMTP", Subjects: subjects,
+		Tolerated: map[string]string{},
+		Sinks: map[string][]int{
+			"x/perpetual/keeper.Keeper.CheckAndLiquidateUnhealthyPosition": {2},
+			"x/perpetual/keeper.Keeper.CheckAndCloseAtStopLoss":            {2},
+			"x/perpetual/keeper.Keeper.CheckAndCloseAtTakeProfit":          {2},
+		},
+	})
+	checkIdCounterMonotone(P, R, "C09-id-monotone", "x/perpetual/keeper.Keeper.SetMTPCount", "Keeper.GetMTPCount", subjects)
 	checkMinCustody(P, R)
 	checkErrorToNil(P, R, subjects)
 }
@@ -363,20 +373,17 @@ func checkMinCustody(P *core.Program, R *core.Report) {
 			if !isCheck(c) {
 				continue
 			}
-			// on the err != nil edge there must be no success exit
+			// on the paths where the check's error is non-nil there must be no success exit
+			// (path-sensitive: `if err != nil && !errors.Is(err, X)` lets X through)
 			v := c.(ssa.Value)
 			bad := ""
-			for _, ex := range ff.Exits() {
-				if ex.Kind == core.ExitError || ex.Kind == core.ExitPanic {
-					continue
-				}
-				for _, a := range ff.At(ex.Instr) {
-					if a.Rel == core.NE && a.B == core.NilMarker && ff.Fwd(a.A) == v {
-						bad = "success exit at " + P.Pos(P.InstrPos(ex.Instr)) + " under a failed check"
-					}
+			e, discarded := core.ErrValueOf(c)
+			if e != nil && !discarded {
+				if r := ff.ErrNonNilReaches(c, e, nil, true); r != nil {
+					bad = "success exit at " + P.Pos(P.InstrPos(r.Instr)) + " under a failed check"
 				}
 			}
-			used := v.Referrers() != nil && len(*v.Referrers()) > 0
+			used := v.Referrers() != nil && len(*v.Referrers()) > 0 && !discarded
 			R.Add("C09-min-custody-error", fnKey, "error of the check", P.Pos(P.InstrPos(c)), used && bad == "", "the check's error must be examined and must not lead to a success return. "+bad)
 		}
 	}
